@@ -126,7 +126,7 @@ PROPS = {
         "level": "proof",
         "harness": ["gwrun", "purediff"],
         "stages": [("pure", stage_pure, {"suites": ["dispatch"], "n_quick": 4000, "n_thorough": 80000}),
-                   ("gw", stage_gw, {"profiles": [("basic", 200, 2000), ("refs", 200, 2500), ("churn", 300, 3000), ("access", 300, 2500), ("scacc", 300, 2500), ("reset", 200, 1500), ("accrefs", 200, 1500), ("http", 250, 2000), ("wild", 0, 1500)]})],
+                   ("gw", stage_gw, {"profiles": [("basic", 200, 2000), ("refs", 200, 2500), ("churn", 300, 3000), ("access", 300, 2500), ("scacc", 300, 2500), ("reset", 200, 1500), ("accrefs", 200, 1500), ("http", 250, 2000), ("scthr1", 400, 3000), ("scthr2", 200, 1500), ("wild", 0, 1500)]})],
         "rule": "as C01; response ledger: every response matches exactly one outstanding request id of that connection, nothing outstanding at quiescence; "
                 "plus the dispatcher differential (exactly one immediate reply or one requester call per method string)",
         "assumptions": [],
@@ -284,7 +284,7 @@ PROPS = {
         "level": "proof",
         "harness": ["gwrun", "purediff"],
         "stages": [("pure", stage_pure, {"suites": ["esqueue"], "n_quick": 8000, "n_thorough": 150000}),
-                   ("gw", stage_gw, {"profiles": [("query", 1200, 8000)], "monitor_props": ("C13", "C01", "C03")})],
+                   ("gw", stage_gw, {"profiles": [("query", 1200, 8000)], "monitor_props": ("C13", "C01", "C03", "C07")})],
         "rule": "direct-drive op sequences (enqueue, locking task with 0-3 locks, unlock callbacks within the call contract, worker runs) on one real "
                 "EventSubscription compared with the model after every sequence (run log, queue length, lock state, pending wake-ups); histories with "
                 "query resources (raw queries q=0..3 normalised by the service to q=K mod 2, aliasing gets in flight together), query events answered with "
